@@ -42,6 +42,9 @@ type dworldCfg struct {
 	IgnoreStatus  bool
 	// IgnoreStatusExcept: targets (by resource name) whose rule gets the opposite of IgnoreStatus
 	IgnoreStatusExcept map[string]bool
+	// RuleAnnotationSel: per target resource, the annotation selector of its rule (overrides AnnotationSel;
+	// a nil entry = that rule has none)
+	RuleAnnotationSel map[string]*v1alpha1.AnnotationSelector
 }
 
 type dworld struct {
@@ -88,6 +91,9 @@ func (c dworldCfg) decoratorController(h *sim.HookSite) *v1alpha1.DecoratorContr
 		rule.Resource = t.Resource
 		rule.LabelSelector = c.LabelSel
 		rule.AnnotationSelector = c.AnnotationSel
+		if as, ok := c.RuleAnnotationSel[t.Resource]; ok {
+			rule.AnnotationSelector = as
+		}
 		if c.IgnoreStatus != c.IgnoreStatusExcept[t.Resource] {
 			tr := true
 			rule.IgnoreStatusChanges = &tr
